@@ -396,7 +396,7 @@ Definition ensure_content_length_zero (cl : clen) : bool :=
    has run *)
 Definition recv_trailers (cl : clen) (eos : bool) (b : block) : outcome * bool :=
   if negb eos then (StreamError, false)                               (* trailers frame was not EOS *)
-  else if negb (ensure_content_length_zero cl) then (StreamError, true)
+  else if negb (ensure_content_length_zero cl) then (StreamError, false)   (* checked before recv_close since fix 1441ad2 *)
   else (Deliver (MTrailers (hm_order (b_fields b))), true).            (* frame.into_fields(): pseudo dropped *)
 
 (* PushPromise::validate_request *)
@@ -694,15 +694,15 @@ Definition step_data (c : config) (s : sstate) (len : N) (eos : bool) : sstate :
 Definition step_push (c : config) (s0 : sstate) (fs : list field) (v : verdicts) : sstate :=
   let pid := s_promised s0 in
   let s := next_promised s0 in
-  if lenN fs =? 0 then conn_error s 1               (* PushPromise::load: `src.len() < 5` -> MalformedMessage -> GOAWAY *)
-  else
+  (* an empty fragment is accepted since fix bd8c9ba (PushPromise::load needs the 4 octets of the promised id only) *)
     match load (c_max c) fs with
     | LHpack => conn_error s 1
     | LWayTooLarge => conn_error s 11
     | LMalformed => codec_reset c s                                   (* resets the PARENT stream *)
     | LOk b =>
       match s_recv s with
-      | RError _ _ | RGone => s                                       (* ensure_recv_open: Err(Reset), a no-op *)
+      | RError _ _ | RGone =>                                         (* is_local_error: the promised stream is refused *)
+          if is_client c then add_rst s pid 8 else conn_error s 1     (* (fix 631577b); server: push is disabled *)
       | RClosed | RDone => conn_error s 1                             (* initiating stream is not open *)
       | RAwait | RStreaming =>
           if negb (is_client c) then conn_error s 1                   (* server: stream unknown / push is disabled *)
